@@ -93,6 +93,7 @@ pub fn install() {
 	INSTALL.call_once(|| {
 		kira::verif::set_hook(Some(Arc::new(|site, id, b| match site {
 			"clock_load_ticks" | "clock_load_fraction" | "clock_store_ticks" | "clock_store_fraction" => super::clocksched::on_hook(site),
+			"res_reserve" | "res_drain" | "res_push" | "res_remove" | "res_refill" => super::ressched::on_hook(site, id),
 			"decode_loop" => {
 				TOTAL_LOOPS.fetch_add(1, Ordering::Relaxed);
 				if with_reg(|r| entry(r, id).abandoned) {
